@@ -25,12 +25,14 @@ fn gen(rng: &mut Rng, tier: &str) -> Vec<(String, Value)> {
         cases.push(("small".into(), json!({"first": first, "second": second, "serial": serial, "time": 1_800_000_000u64 + r.below(1_000_000)})));
     }
     // large: cumulative length crosses the 64000 byte threshold once or several times
-    let sizes: Vec<usize> = if tier == "thorough" { vec![380, 420, 460, 500, 900, 1400] } else { vec![470] };
+    // (sizes >= 1000 keep four fifths of the pool, so that the snapshot response alone is two to three chunks)
+    let sizes: Vec<usize> = if tier == "thorough" { vec![380, 420, 460, 500, 900, 1400, 1200, 2000] } else { vec![470, 1200] };
     for sz in sizes {
         let mut r = rng.fork();
         let u = Universe::new(&mut r, sz, 6, 12);
-        let first = u.snap(&mut r, 1, 2);
-        let second = u.snap(&mut r, 1, 2);
+        let (num, den) = if sz >= 1000 { (4, 5) } else { (1, 2) };
+        let first = u.snap(&mut r, num, den);
+        let second = u.snap(&mut r, num, den);
         cases.push(("large".into(), json!({"first": first, "second": second, "serial": 7, "time": 1_800_000_000u64})));
     }
     // aligned: the end of the announced list falls at chosen offsets around the 64000-byte threshold, so that
